@@ -17,6 +17,8 @@ from c08 import DSETS
 ATOMS = ["{{", "}}", "{%", "%}", "{#", "#}", "{", "}", "%", "#", "-", "{{-", "-}}", "{%-", "-%}", " ", "\n", "x", "1", "99999999999999999999999999999999999999999",
          "1.5e999", "'", '"', "`", "'a", "é", "世", "\U0001F600", "if", "endif", "for", "in", "raw", "endraw", "set", "=", "|", ".", "[", "]", "(", ")", "block", "<c/>"]
 
+# atoms of the expression context: every sequence of <= 3 of them is placed inside `{{ .. }}` and `{% if .. %}`
+INTAG = ["-", " ", "é", "世", "\U0001F600", "1", "a", "'", '"', "€", ".", "|", "(", ")", "[", "]", "~", "not ", "-1", "%", "}", "*"]
 COMP = "{% component c() %}{{ body }}{% endcomponent c %}"
 
 
@@ -142,6 +144,17 @@ def run(tier):
                     src = src.replace("\x00" + str(i), b)
             ajobs.append({"cfg": {"delims": d}, "steps": [{"op": "add", "tpls": [["t", src]]}, {"op": "render_str", "src": src, "auto": True}]})
             ameta.append((seq, ds, src))
+    # the same enumeration (MC_Atoms) over the expression-context atoms, inside tags
+    with open(vp.SPEC + "/MC_Atoms_run.cfg", "w") as f:
+        f.write(open(vp.SPEC + "/MC_Atoms.cfg").read().replace("NAtoms = 44", "NAtoms = %d" % len(INTAG)).replace("MaxAtoms = 2", "MaxAtoms = 3"))
+    ri = vp.tlc("MC_Atoms", "MC_Atoms_run", workers=4, timeout=3000, name="c06-intag", xmx="16g")
+    C.add_tlc(ri, "MC_Atoms (sequences of <= 3 of %d expression-context atoms)" % len(INTAG))
+    for seq in ri.tags["VEC"]:
+        body = "".join(INTAG[i - 1] for i in seq)
+        for ds, d in (("default", DSETS["default"]), ("multibyte", DSETS["multibyte"])):
+            for src in (d[2] + " a" + body + " " + d[3], d[2] + body + d[3], d[0] + " if 1" + body + " " + d[1] + "x" + d[0] + " endif " + d[1]):
+                ajobs.append({"cfg": {"delims": d}, "steps": [{"op": "add", "tpls": [["t", src]]}]})
+                ameta.append((seq, ds, src))
     ares = vp.run_jobs(ajobs, tag="c06-atoms", timeout=3000, may_abort=False)
     for (seq, ds, src), rr in zip(ameta, ares):
         C.count()
